@@ -271,3 +271,39 @@ func vfH_conc_shared() {
 	vfAssert(ca.writeBuf == nil && cb.writeBuf == nil, "c20-none-held-between-messages")
 	vfReach("conc-shared-end")
 }
+
+// vfH_conc_fault (C10 / C11): a transport fault hits one of two concurrent
+// callers (a data writer and a WriteControl caller that may be parked waiting
+// for the connection). On every schedule within the bound: nothing reaches the
+// transport after the failed operation, at least one of the two calls reports
+// the failure, and every later call fails.
+func vfH_conc_fault() {
+	vfInit()
+	vfTimersFire(false)
+	isServer := vfChoose(2) == 1
+	tc := vfNewConn(nil)
+	tc.wfailAt = vfChoose(2 + 2*vfParam("tier", 0))
+	tc.wfault = 1 + vfChoose(3)
+	c := newConn(tc, isServer, 0, 8, nil, nil, nil)
+	var wErr, pErr error
+	zero := vfChoose(2) == 1
+	vfGo(func() {
+		wErr = c.WriteMessage(BinaryMessage, []byte("abc"))
+	})
+	vfGo(func() {
+		d := time.Time{}
+		if !zero {
+			d = time.Now().Add(time.Hour)
+		}
+		pErr = c.WriteControl(PingMessage, []byte("p"), d)
+	})
+	vfJoin()
+	vfAssert(tc.wfailed, "fault-write-injected")
+	vfAssert(tc.afterFail == 0, "c10-nothing-written-after-failed-write")
+	vfAssert(wErr != nil || pErr != nil, "c10-failed-step-reports-error")
+	vfAssert(c.WriteMessage(TextMessage, []byte("x")) != nil, "c10-later-write-fails")
+	vfAssert(c.WriteControl(PongMessage, nil, time.Time{}) != nil, "c10-later-write-fails")
+	vfAssert(tc.afterFail == 0, "c10-nothing-written-after-failed-write")
+	vfCheckFramesThenPrefix(tc.wire(), !isServer, false, "c10")
+	vfReach("conc-fault-end")
+}
